@@ -14,7 +14,8 @@ From MZ.gen Require Import GenZlib.
 From MZ.model Require Import DeflateCore.
 From MZ.lib Require Import Arr.
 From MZ.model Require InflateCore.
-From MZ.proofs Require Import DeflateFlags StoredSpec StoredRoundtrip StoredEndToEnd StoredEndToEndZ.
+From MZ.model Require InflateStream.
+From MZ.proofs Require Import DeflateFlags StoredSpec StoredRoundtrip StoredEndToEnd StoredEndToEndZ StoredApiRoundtrip.
 Import ListNotations.
 Local Open Scope Z_scope.
 
@@ -104,3 +105,25 @@ Example C01_zlib_level0_through_both_models :
   | _ => False
   end.
 Proof. vm_compute. repeat split; reflexivity. Qed.
+
+(* ... and on the API-level functions themselves: the decoder model's growing-vector loop
+   (decompress_to_vec_inner, behind decompress_to_vec / decompress_to_vec_zlib) applied to what the compressor
+   model's compress_to_vec_inner returned gives back the input - raw and zlib, every input *)
+Theorem C01_level0_api_roundtrip_on_both_models_partial :
+  forall (data : list N) (cflags iflags0 : N) (out : list N),
+  hasf cflags FLAG_RAW = true -> bytes_ok data ->
+  compress_to_vec_inner data cflags = Ret (VBytes out) ->
+  InflateCore.has (N.lor iflags0 InflateCore.F_NONWRAP) InflateCore.F_ZLIB = hasf cflags FLAG_ZLIB ->
+  InflateCore.has (N.lor iflags0 InflateCore.F_NONWRAP) InflateCore.F_STOPBB = false ->
+  (N.of_nat (length out) < 2 ^ 57)%N ->
+  InflateStream.decompress_to_vec_inner out iflags0 USIZE_MAX = Ret (InflateStream.VOk data).
+Proof. exact level0_api_roundtrip. Qed.
+
+Example C01_api_roundtrip_runs :
+  match compress_to_vec_inner (map (fun i => N.of_nat i mod 251)%N (seq 0 300)) 528384 with
+  | Ret (VBytes out) =>
+      InflateStream.decompress_to_vec_inner out 1 USIZE_MAX
+      = Ret (InflateStream.VOk (map (fun i => N.of_nat i mod 251)%N (seq 0 300)))
+  | _ => False
+  end.
+Proof. vm_compute. reflexivity. Qed.
